@@ -29,7 +29,7 @@ from . import common
 ID = "C12"
 LEVEL = "exploration"
 TIERS = {
-    "quick": {"runs": 500, "wall": 75, "run_timeout": 150, "shrink_s": 60, "schedules": 2},
+    "quick": {"runs": 1400, "wall": 70, "run_timeout": 150, "shrink_s": 60, "schedules": 2},
     "thorough": {"runs": 30000, "wall": 1100, "run_timeout": 300, "shrink_s": 180, "schedules": 3},
 }
 RULE = ("case = seeded gamma scenario with a combined dissimilarity (every categorical component, alpha incl. 0, delta_empty != 1) or "
